@@ -595,6 +595,9 @@ def run_property(ctx, make_jobs, meta):
         os.makedirs(os.path.join(VERIF, "evidence"), exist_ok=True)
         with open(os.path.join(VERIF, "evidence", prop + ".json"), "w") as f:
             json.dump(ev, f, indent=1)
+    slow = sorted(((j.seconds, j.name) for j in jobs if j.seconds > 60), reverse=True)[:8]
+    if slow:
+        print("slowest jobs: " + ", ".join("%s %.0fs" % (n, s_) for s_, n in slow))
     print("%s property=%s tier=%s jobs=%d obligations=%d discharged=%d bounded=%d/%d known=%d undecided=%d wall=%.1fs"
           % ({0: "OK", 1: "FAIL", 2: "UNDECIDED"}[rc], prop, ctx.tier, len(jobs), n_obl, n_dis, n_b_dis, n_b_obl,
              n_known, len(undecided), wall))
